@@ -148,5 +148,38 @@ func TestSweep(t *testing.T) {
 			}
 		}
 	}
+	// per-channel slices kept in one caller block: planar (equal lengths), all but the last equal, two inner
+	// channels exchanged, one inner channel kept elsewhere - for the writer and for the reader
+	for _, pr := range [][2]string{{"float32", "float32"}, {"int16", "float64"}, {"uint8", "uint8"}} {
+		for C := 2; C <= 5; C++ {
+			for share := 2; share <= 4; share++ {
+				for _, last := range []int{4, 2, 6, 0} {
+					lens := make([]int, C)
+					for ch := range lens {
+						lens[ch] = 4
+					}
+					lens[C-1] = last
+					for _, fr := range []int{4, 3, 6} {
+						Oracle.One(t, env, rec, "sweep", &Case{S: pr[0], B: pr[1], C: C, Kr: fr + 1, A: 0, Bf: fr, Ops: []Op{
+							{Kind: "writeStriped", Lens: lens, Vals: []kit.Val{kit.IV(1), kit.IV(2), kit.IV(3), kit.IV(4), kit.IV(5), kit.IV(6), kit.IV(7)}, Share: share},
+							{Kind: "readStriped", Lens: lens, Share: share}, {Kind: "read", N: fr * C}}})
+					}
+				}
+			}
+		}
+	}
+	// the same outer slice for several striped writes on one window, with other members than the first changing length
+	for _, pr := range [][2]string{{"float64", "float64"}, {"int8", "int32"}} {
+		for C := 2; C <= 3; C++ {
+			a, b2, c3 := make([]int, C), make([]int, C), make([]int, C)
+			for ch := range a {
+				a[ch], b2[ch], c3[ch] = 2, 2, 2
+			}
+			a[C-1], b2[C-1], c3[C-1] = 3, 1, 4
+			Oracle.One(t, env, rec, "sweep", &Case{S: pr[0], B: pr[1], C: C, Kr: 5, A: 0, Bf: 4, Ops: []Op{
+				{Kind: "writeStriped", Lens: a, Vals: vals}, {Kind: "writeStriped", Lens: b2, Vals: vals2}, {Kind: "writeStriped", Lens: c3, Vals: vals},
+				{Kind: "writeStriped", Lens: b2, Vals: vals2}, {Kind: "read", N: 4 * C}}})
+		}
+	}
 	rec.Exhaustive("169 pairs x C<=3 x root<=3(4) frames x all windows x {write,read,writeStriped,readStriped} x lengths {0,n-1,n,n+1}", true)
 }
